@@ -217,6 +217,14 @@ def tensor_getattr(I, t: Tensor, name):
         return Builtin("ndarray.reshape", reshape)
     if name == "ravel":
         return Builtin("ndarray.ravel", lambda I_, a, k: reshaped_view(t, (t.size,)))
+    if name in ("argmax", "argmin"):
+        def arg(I_, a, k):
+            if a or k or t.size == 0 or not all(isinstance(e, (int, Fraction)) for e in t.data):
+                raise Unsupported(f"ndarray.{name} of a symbolic array / along an axis")
+            vals = [Fraction(int(e)) if isinstance(e, bool) else e for e in t.data]
+            best = max(vals) if name == "argmax" else min(vals)
+            return vals.index(best)                  # the first occurrence, as numpy
+        return Builtin("ndarray." + name, arg)
     if name == "diagonal":
         def diagonal(I_, a, k):
             if a or k or t.ndim != 2:
@@ -637,6 +645,22 @@ def make_numpy(extra=None):
         if len(a) == 1 and isinstance(m, Tensor) and m.ndim == 1 and not any(isinstance(b, Sym) for b in m.data):
             idx = [i for i, b in enumerate(m.data) if b]
             return (Tensor((len(idx),), idx, "int"),)
+        if len(a) == 3 and not k and all(isinstance(v, Tensor) or is_scalar(v) for v in a):
+            # np.where(cond, x, y): elementwise choice over the broadcast shape
+            from ..values import broadcast_get, broadcast_shapes, iter_idx
+            c, x, y = (as_tensor(I, v) for v in a)
+            shp = broadcast_shapes(broadcast_shapes(c.shape, x.shape), y.shape)
+            data = []
+            for i_ in iter_idx(shp):
+                ce, xe, ye = broadcast_get(c, shp, i_), broadcast_get(x, shp, i_), broadcast_get(y, shp, i_)
+                if isinstance(ce, Sym):
+                    cz = ce.t if ce.kind == "bool" else ce.t != 0
+                    w = "int" if kind_of(xe) in ("int", "bool") and kind_of(ye) in ("int", "bool") else "real"
+                    data.append(mk(z3.If(cz, to_z3(xe, w), to_z3(ye, w))))
+                else:
+                    data.append(xe if ce else ye)
+            dt = "int" if x.dtype == y.dtype == "int" else ("bool" if x.dtype == y.dtype == "bool" else "float")
+            return Tensor(shp, data, dt)
         raise Unsupported("np.where of a symbolic / multi-dimensional fixed array")
     A["where"] = Builtin("np.where", where)
 
@@ -921,6 +945,67 @@ def make_numpy(extra=None):
             raise Unsupported("np.reshape of this form")
         return reshaped_view(t, shp)
     _set("reshape", reshape)
+
+    def concrete_ints(I, v):
+        vals = list(v.data) if isinstance(v, Tensor) else (list(ops.iterate(I, v)) if isinstance(v, (list, tuple)) else [v])
+        if not all(isinstance(x, int) and not isinstance(x, bool) for x in vals):
+            raise Unsupported("symbolic / non-integer indices")
+        return vals
+
+    def delete(I, a, k):
+        t = as_tensor(I, a[0])
+        axis = k.get("axis", a[2] if len(a) > 2 else None)
+        if set(k) - {"axis"} or t.ndim < 1 or (axis not in (None, 0)) or (axis is None and t.ndim != 1):
+            raise Unsupported("np.delete of this form")
+        if isinstance(a[1], Tensor) and a[1].dtype == "bool":
+            if any(isinstance(b_, Sym) for b_ in a[1].data) or a[1].shape != (t.shape[0],):
+                raise Unsupported("np.delete with this mask")
+            drop = {i for i, b_ in enumerate(a[1].data) if b_}
+        else:
+            n = t.shape[0]
+            drop = set()
+            for i in concrete_ints(I, a[1]):
+                if i < -n or i >= n:
+                    raise PyExc("IndexError", (f"index {i} is out of bounds for axis 0 with size {n}",))
+                drop.add(i % n)
+        keep = [i for i in range(t.shape[0]) if i not in drop]
+        row = 1
+        for d_ in t.shape[1:]:
+            row *= d_
+        return Tensor((len(keep),) + tuple(t.shape[1:]), [t.data[i * row + j] for i in keep for j in range(row)], t.dtype)
+    _set("delete", delete)
+
+    def append(I, a, k):
+        if k.get("axis") is not None or set(k) - {"axis"}:
+            raise Unsupported("np.append with an axis")
+        x, y = as_tensor(I, a[0]), as_tensor(I, a[1])
+        dt = x.dtype if isinstance(a[0], Tensor) else "float"
+        return Tensor((x.size + y.size,), list(x.data) + list(y.data), dt if (not isinstance(a[1], Tensor) or a[1].dtype == dt) else "float")
+    _set("append", append)
+
+    def isin(I, a, k):
+        if set(k) - {"assume_unique", "invert"}:
+            raise Unsupported("np.isin kwargs")
+        x, pool = as_tensor(I, a[0]), as_tensor(I, a[1])
+        inv = k.get("invert", False)
+        if not isinstance(inv, bool):
+            raise Unsupported("np.isin(invert=<symbolic>)")
+        out = []
+        for e in x.data:
+            acc = False
+            for q in pool.data:
+                acc = ops.sym_or(acc, ops.compare(I, "Eq", e, q))
+            out.append(ops.sym_not(acc) if inv else acc)
+        return Tensor(x.shape, out, "bool")
+    _set("isin", isin)
+
+    def flatnonzero(I, a, k):
+        t = as_tensor(I, a[0])
+        if k or any(isinstance(e, Sym) for e in t.data):
+            raise Unsupported("np.flatnonzero of a symbolic array")
+        idx = [i for i, e in enumerate(t.data) if e]
+        return Tensor((len(idx),), idx, "int")
+    _set("flatnonzero", flatnonzero)
 
     def fill_diagonal(I, a, k):
         t = a[0]
